@@ -202,6 +202,23 @@ def _check_json(ctx: Ctx) -> None:
         construct = 'NumpyOrSetEncoder.default:' + '|'.join(types)
         ctx.instance('C17.c', construct)
         if isinstance(rv, ast.Dict):
+            # layout: whatever flattens/reshapes the payload must do so in C order on both sides ('K'/'A' depend on the
+            # memory layout of the individual array, the decoder cannot know it)
+            for c_ in [n for n in ast.walk(rv) if isinstance(n, ast.Call) and isinstance(n.func, ast.Attribute)
+                       and n.func.attr in ('ravel', 'flatten', 'reshape')]:
+                order = 'C'
+                for k_ in c_.keywords:
+                    if k_.arg == 'order':
+                        order = k_.value.value if isinstance(k_.value, ast.Constant) else '?'
+                if c_.func.attr in ('ravel', 'flatten') and c_.args and isinstance(c_.args[0], ast.Constant):
+                    order = c_.args[0].value
+                lconstruct = 'NumpyOrSetEncoder.default:' + '|'.join(types) + ':layout'
+                ctx.instance('C17.c', lconstruct)
+                ctx.obligation('C17.c', lconstruct, order == 'C', {'call': norm(c_)[:60], 'order': order})
+                if order != 'C':
+                    ctx.violation('C17.c', 'NumpyOrSetEncoder.default', 'the array payload is flattened with memory order %r (`%s`) but the '
+                                  'decoder rebuilds it in C order: arrays that are not C-contiguous (a transpose, a Fortran array) come back '
+                                  'with permuted values' % (order, norm(c_)[:50]), enc.path, c_.lineno, operand='layout')
             keys = {k.value for k in rv.keys if isinstance(k, ast.Constant)}
             tags = [k for k in keys if k in dec_tags]
             if len(tags) != 1:
@@ -396,6 +413,8 @@ MUTANTS = [
            r'C17\.a:Result\._from_dict:(value_list|num_updates)'),
     Mutant('revert-fix-572c2a9-current_rep', RES, 'SimulationResults._to_dict',
            [('regex', r"'current_rep': self\.current_rep,\s*", '')], r'C17\.[ab]:SimulationResults'),
+    Mutant('encoder-flattens-in-K-order', SER, 'NumpyOrSetEncoder.default',
+           [('replace', "'data': obj.tolist()", "'data': obj.ravel(order='K').tolist()")], r'C17\.c:NumpyOrSetEncoder\.default:layout'),
     Mutant('benign-reorder-isinstance-branches', SER, 'NumpyOrSetEncoder.default',
            [('regex', r"(    if isinstance\(obj, np\.ndarray\).*?)(    if isinstance\(obj, set\):\n        return [^\n]*\n)", r'\2\1')],
            None, benign=True),
